@@ -133,6 +133,29 @@ func drawDataset(t *rapid.T) *dataset {
 		}
 		ds.Palette = append(ds.Palette, ts)
 	}
+	// values: about half of the numeric values repeat one that the field already has somewhere in
+	// the data set (any earlier one, or the largest / smallest so far), so that the extreme value of
+	// a field often occurs more than once - at different times, in different series, shards and files
+	// (MIN()/MAX() then have to pick among tied points)
+	drawn := map[string][]refql.Value{}
+	fieldValue := func(f string) refql.Value {
+		k := fieldKinds[f]
+		prev := drawn[f]
+		v := refql.Value{}
+		mode := roll(t, 10, "valMode") // 0: any earlier value, 1-2: the largest, 3-4: the smallest, 5-9: a fresh one
+		if len(prev) == 0 || !(k == refql.Float || k == refql.Integer || k == refql.Unsigned) || mode > 4 {
+			v = drawValue(t, k, "val")
+		} else {
+			v = prev[roll(t, len(prev), "echo")]
+			for _, x := range prev {
+				if ((mode == 1 || mode == 2) && refql.CompareValues(x, v) > 0) || ((mode == 3 || mode == 4) && refql.CompareValues(x, v) < 0) {
+					v = x
+				}
+			}
+		}
+		drawn[f] = append(drawn[f], v)
+		return v
+	}
 	nBatches := rapid.IntRange(1, 4).Draw(t, "nBatches")
 	for b := 0; b < nBatches; b++ {
 		var bt batch
@@ -147,7 +170,7 @@ func drawDataset(t *rapid.T) *dataset {
 			mask := rapid.IntRange(1, 1<<len(fs)-1).Draw(t, "fieldMask")
 			for j, f := range fs {
 				if mask&(1<<j) != 0 {
-					wr.Fields[f] = drawValue(t, fieldKinds[f], "val")
+					wr.Fields[f] = fieldValue(f)
 				}
 			}
 			bt.Writes = append(bt.Writes, wr)
@@ -158,7 +181,7 @@ func drawDataset(t *rapid.T) *dataset {
 				for h := 0; h < ds.Hours; h++ {
 					m := int64(rapid.IntRange(0, 59).Draw(t, "uMinute"))
 					bt.Writes = append(bt.Writes, write{Meas: measurement, Series: si, T: baseTime + int64(h)*hour + m*minute,
-						Fields: map[string]refql.Value{"f": drawValue(t, refql.Float, "uval")}})
+						Fields: map[string]refql.Value{"f": fieldValue("f")}})
 				}
 			}
 		}
@@ -476,7 +499,17 @@ func drawQuery(t *rapid.T, ds *dataset, d *refql.Data) *refql.Query {
 		fields = []fieldUse{{"f", refql.Float}}
 	}
 	q := &refql.Query{Measurement: measurement}
-	isCall := roll(t, 100, "isCall") < 62
+	// about one statement in eight is a lone MIN()/MAX() over a numeric field, mostly without GROUP BY
+	// time (the row then carries the time of the selected point) and often with tag columns: the
+	// shape in which it shows which of several points with the extreme value was selected
+	var numeric []fieldUse
+	for _, f := range fields {
+		if f.kind == refql.Float || f.kind == refql.Integer || f.kind == refql.Unsigned {
+			numeric = append(numeric, f)
+		}
+	}
+	probe := len(numeric) > 0 && roll(t, 100, "minmaxShape") < 15
+	isCall := probe || roll(t, 100, "isCall") < 62
 	outKind := refql.Float
 	selector := false
 	callFns := func(k refql.Kind) []string {
@@ -494,6 +527,10 @@ func drawQuery(t *rapid.T, ds *dataset, d *refql.Data) *refql.Query {
 			fns = []string{"count", "sum", "mean", "min", "max", "first", "last"}
 		default:
 			fns = []string{"count", "first", "last"}
+		}
+		if probe {
+			f = pick(t, numeric, "minmaxField")
+			fns = []string{"min", "max", "max"}
 		}
 		fn := pick(t, fns, "func")
 		q.Proj = []refql.Proj{{Kind: refql.ProjCall, Func: fn, Name: f.name}}
@@ -518,10 +555,10 @@ func drawQuery(t *rapid.T, ds *dataset, d *refql.Data) *refql.Query {
 	}
 
 	// GROUP BY time: always with explicit lower and upper bounds
-	withInterval := isCall && roll(t, 100, "withInterval") < 70
-	wantMulti := isCall && roll(t, 100, "multiCall") < 38
+	withInterval := isCall && roll(t, 100, "withInterval") < map[bool]int{true: 25, false: 70}[probe]
+	wantMulti := isCall && !probe && roll(t, 100, "multiCall") < 38
 	var lo, hi int64
-	if withInterval || roll(t, 100, "timeBounds") < 55 {
+	if withInterval || roll(t, 100, "timeBounds") < map[bool]int{true: 35, false: 55}[probe] {
 		lo, hi = drawInstant(t, ds, "lo"), drawInstant(t, ds, "hi")
 		if lo > hi && roll(t, 20, "inverted") != 0 {
 			lo, hi = hi, lo
@@ -634,7 +671,7 @@ func drawQuery(t *rapid.T, ds *dataset, d *refql.Data) *refql.Query {
 			}
 		}
 	}
-	if roll(t, 100, "hasCond") < 45 {
+	if roll(t, 100, "hasCond") < map[bool]int{true: 25, false: 45}[probe] {
 		known := ds.fieldsKnownIn(measurement, q)
 		var condFields []fieldUse
 		for _, f := range fields {
@@ -648,7 +685,8 @@ func drawQuery(t *rapid.T, ds *dataset, d *refql.Data) *refql.Query {
 		q.Cond = drawCond(t, condFields, 0)
 		q.TimeLast = rapid.Bool().Draw(t, "timeLast")
 	}
-	switch roll(t, 10, "groupBy") {
+	// (a lone MIN()/MAX() more often over all series merged: values 10-13 mean no GROUP BY tags)
+	switch roll(t, map[bool]int{true: 14, false: 10}[probe], "groupBy") {
 	case 0, 1:
 		q.GroupBy = []string{"t1"}
 	case 2:
@@ -699,7 +737,7 @@ func drawQuery(t *rapid.T, ds *dataset, d *refql.Data) *refql.Query {
 			}
 		}
 	}
-	wantSelTags := selector && roll(t, 4, "selTags") == 0
+	wantSelTags := selector && roll(t, 4, "selTags") < map[bool]int{true: 2, false: 1}[probe]
 	if wantSelTags && !(q.Interval == 0 || q.Fill == refql.FillNone || q.Fill == refql.FillNull || q.Fill == refql.FillDefault) {
 		// what the tag columns of a filled row hold is not documented (the engine puts the fill value
 		// or the previous tag there): not generated
@@ -716,7 +754,7 @@ func drawQuery(t *rapid.T, ds *dataset, d *refql.Data) *refql.Query {
 	}
 	q.Desc = roll(t, 10, "desc") < map[bool]int{true: 4, false: 3}[multi]
 	grouped := len(q.GroupBy) > 0 || q.GroupAll
-	if roll(t, 100, "limits") < 40 {
+	if roll(t, 100, "limits") < map[bool]int{true: 15, false: 40}[probe] {
 		q.Limit = rapid.IntRange(1, 6).Draw(t, "limit")
 		if roll(t, 15, "offsetOnly") == 0 {
 			q.Limit = 0
